@@ -1,12 +1,15 @@
 import SleapVerif.Lemmas.Arch
 /-!
-# The configuration grid of property C14 and its well-formedness check
+# Well-formedness certificate of a configuration, and its consequences
 
-`wellFormed c` is a decidable, input-size-free certificate: the model builds, every strided op
-divides exactly, the encoder's total stride is the family's max stride, and on an input of
-exactly one max stride per side the forward pass succeeds with the contracted head outputs and
-every decoder stage sits at the stride its label claims.  `Props/C14.arch_contract` lifts such a
-certificate to every input `a·S × b·S`, every pooling state and every call history.
+`wellFormed c` is a decidable, input-size-free certificate: the backbone builds, every strided op
+divides exactly, the encoder's total stride is the family's max stride, the channel pass
+succeeds, on an input of exactly one max stride the spatial pass succeeds with every decoder
+stage at the stride its label claims, and for every head the stride is found among the decoder
+labels, divides the max stride, and the `in_channels` computed by `Model.__init__` equal the
+channels of the stage `Model.forward` selects.
+
+`run_of_wellFormed` lifts the certificate to every input `a·S × b·S`, either pooling state.
 -/
 namespace SleapVerif.Arch
 
@@ -18,55 +21,228 @@ def run (c : Cfg) (fresh : Bool) (h w : Nat) : Res Forward :=
 def contract (c : Cfg) (h w : Nat) : List (Nat × Nat × Nat) :=
   c.heads.map fun hd => (hd.ch, h / hd.os, w / hd.os)
 
-def wellFormed (c : Cfg) : Bool :=
-  match construct c with
+/-- per-head certificate (depends on the head's stride only, not on its channel count) -/
+def certOs (c : Cfg) (b : Built) (chans l0 : List Nat) (minOs os : Nat) : Bool :=
+  decide (0 < os) &&
+  match findIdx (labels b.dec) os with
   | .err _ => false
-  | .ok k =>
+  | .ok i =>
+    (headInFor c.rate b.xIn b.dec.length (labels b.dec) minOs os == .ok (chans.getD i 0))
+      && l0.getD i 0 * os == c.realMaxStride
+
+def wellFormed (c : Cfg) : Bool :=
+  match build c with
+  | .err _ => false
+  | .ok b =>
     let S := c.realMaxStride
-    k.built.enc.all Op.exactOk && encStride k.built.enc == S && decide (0 < S)
-      && c.heads.all (fun hd => decide (0 < hd.os) && S % hd.os == 0)
-      && k.headIn.length == c.heads.length
-      && match forward c k true S S with
-         | .err _ => false
-         | .ok f => f.outs == contract c S S
-                     && f.stages.all (fun (l, _, a, b) => l * a == S && l * b == S)
+    b.enc.all Op.exactOk && encStride b.enc == S && !c.heads.isEmpty &&
+    match chanStages c b, spatStages b true S with
+    | .ok chans, .ok l0 => c.heads.all fun h => certOs c b chans l0 c.minOs h.os
+    | _, _ => false
 
-/-- Documented validity: `backbone output_stride ≤ head stride ≤ max_stride / 2` for every head
-    (a head *at* the max stride is an invalid configuration, rejected loudly: see
-    `Props/C14.head_stride_eq_max_rejected`), at least one head. -/
-def docValid (c : Cfg) : Bool :=
-  !c.heads.isEmpty && c.heads.all (fun h => decide (c.bos ≤ h.os) && decide (2 * h.os ≤ c.realMaxStride))
-    && decide (1 ≤ c.cpb)
+theorem build_heads (c : Cfg) (hs : List Head) : build { c with heads := hs } = build c := by
+  unfold build; cases c.fam <;> rfl
 
-/-- The extra hypotheses under which the contract is actually true of the code (the three
-    excluded regions are the known findings F-C14-*; `rate = 2` for the wrappers is a documented
-    restriction: their encoders double the channels per stage). -/
-def supported (c : Cfg) : Bool :=
-  match c.fam with
-  | .unet => decide (2 ≤ c.cpb) && (c.middle || c.rate == ⟨1, 1⟩)
-  | _ => c.rate == ⟨2, 1⟩ && decide (c.bos ≤ c.stem)
+theorem build_upInterp (c : Cfg) (u : Bool) : build { c with upInterp := u } = build c := by
+  unfold build; cases c.fam <;> rfl
 
-def strides6 : List Nat := [1, 2, 4, 8, 16, 32]
-def rates3 : List Rate := [⟨1, 1⟩, ⟨3, 2⟩, ⟨2, 1⟩]
-def bools : List Bool := [true, false]
+/-- `up_interpolate = False` is the stronger case: a certificate for it gives one for `True`. -/
+theorem wellFormed_upInterp (c : Cfg) (h : wellFormed { c with upInterp := false } = true) (u : Bool) :
+    wellFormed { c with upInterp := u } = true := by
+  cases u
+  · exact h
+  · unfold wellFormed at h ⊢
+    rw [build_upInterp] at h ⊢
+    cases hb : build c with
+    | err e => simp [hb] at h
+    | ok b =>
+      simp only [hb] at h ⊢
+      simp only [Bool.and_eq_true] at h ⊢
+      refine ⟨h.1, ?_⟩
+      have h2 := h.2
+      cases hc : chanStages { c with upInterp := false } b with
+      | err e => simp [hc] at h2
+      | ok chans =>
+        have hc' : chanStages { c with upInterp := true } b = .ok chans := by
+          unfold chanStages at hc ⊢
+          obtain ⟨⟨x, feats⟩, he, hd⟩ := Res.bind_eq_ok.mp hc
+          simp only at he hd ⊢
+          rw [he]
+          exact decChan_upInterp_mono _ _ _ _ hd
+        simp only [hc, hc'] at h2 ⊢
+        exact h2
 
-/-- head lists of the grid: one confidence-map head (single-instance / centroid / centered-instance:
-    3 channels stand for `parts`, see `output_channels`), or confmaps + PAFs (bottom-up) -/
-def headGrid : List (List Head) :=
-  (strides6.map fun a => [⟨a, 3⟩]) ++ (strides6.flatMap fun a => strides6.map fun b => [⟨a, 3⟩, ⟨b, 2⟩])
+/-- Heads are independent: certificates for the one-head configurations (any channel count)
+    assemble into a certificate for the whole head list, as long as no head is below the
+    backbone's output stride. -/
+theorem wellFormed_of_single (c : Cfg) (hne : c.heads ≠ [])
+    (h : ∀ hd ∈ c.heads, c.bos ≤ hd.os ∧ ∃ ch, wellFormed { c with heads := [⟨hd.os, ch⟩] } = true) :
+    wellFormed c = true := by
+  have hmin : c.minOs = c.bos := by
+    unfold Cfg.minOs
+    exact minList_of_le _ _ (by
+      intro x hx
+      obtain ⟨hd, hhd, rfl⟩ := List.mem_map.mp hx
+      exact (h hd hhd).1)
+  obtain ⟨hd0, hs0, hcons⟩ := List.exists_cons_of_ne_nil hne
+  have h0 := h hd0 (by simp [hcons])
+  obtain ⟨hle0, ch0, hw0⟩ := h0
+  unfold wellFormed at hw0 ⊢
+  rw [build_heads] at hw0
+  cases hb : build c with
+  | err e => simp [hb] at hw0
+  | ok b =>
+    simp only [hb] at hw0 ⊢
+    have hcs : ∀ hs, chanStages { c with heads := hs } b = chanStages c b := fun _ => rfl
+    have hrs : ∀ hs, ({ c with heads := hs } : Cfg).realMaxStride = c.realMaxStride := fun _ => rfl
+    simp only [hcs, hrs, Bool.and_eq_true] at hw0 ⊢
+    refine ⟨⟨hw0.1.1, by simp [hne]⟩, ?_⟩
+    cases hc : chanStages c b with
+    | err e => simp [hc] at hw0
+    | ok chans =>
+      cases hsp : spatStages b true c.realMaxStride with
+      | err e => simp [hc, hsp] at hw0
+      | ok l0 =>
+        simp only [List.all_eq_true]
+        intro hd hhd
+        obtain ⟨hle, ch, hw⟩ := h hd hhd
+        unfold wellFormed at hw
+        rw [build_heads, hb] at hw
+        simp only [hcs, hrs, hc, hsp, Bool.and_eq_true, List.all_cons, List.all_nil, Bool.and_true] at hw
+        have hm1 : ({ c with heads := [⟨hd.os, ch⟩] } : Cfg).minOs = c.bos := by
+          simp only [Cfg.minOs, List.map_cons, List.map_nil, minList]
+          exact Nat.min_eq_right hle
+        have := hw.2
+        rw [hm1] at this
+        rw [hmin]
+        exact this
 
-def gridUnet (filters : Nat) (rate : Rate) : List Cfg :=
-  [8, 16, 32].flatMap fun ms => [0, 2, 4].flatMap fun stem => strides6.flatMap fun bos =>
-  headGrid.flatMap fun hs => [1, 2, 3].flatMap fun cpb => bools.flatMap fun mid => bools.map fun upi =>
-    { fam := .unet, variant := 0, filters := filters, rate := rate, maxStride := ms, bos := bos, stem := stem,
-      cpb := cpb, middle := mid, upInterp := upi, inCh := 1, heads := hs }
+/-- **The certificate implies the contract** for every input `a·S × b·S` and either pooling
+    state: construction succeeds, forward succeeds, one output per head with the head's channel
+    count and spatial size `input / head stride`. -/
+theorem run_of_wellFormed (c : Cfg) (hw : wellFormed c = true) (a b : Nat) (ha : 0 < a) (hb : 0 < b)
+    (fresh : Bool) :
+    ∃ f, run c fresh (a * c.realMaxStride) (b * c.realMaxStride) = .ok f ∧
+      f.outs = contract c (a * c.realMaxStride) (b * c.realMaxStride) := by
+  unfold wellFormed at hw
+  cases hbd : build c with
+  | err e => simp [hbd] at hw
+  | ok bb =>
+    simp only [hbd, Bool.and_eq_true] at hw
+    obtain ⟨⟨⟨hex, hS⟩, _⟩, hw⟩ := hw
+    cases hc : chanStages c bb with
+    | err e => simp [hc] at hw
+    | ok chans =>
+      cases hsp : spatStages bb true c.realMaxStride with
+      | err e => simp [hc, hsp] at hw
+      | ok l0 =>
+        simp only [hc, hsp, List.all_eq_true] at hw
+        have hS' : encStride bb.enc = c.realMaxStride := by simpa using hS
+        have hex' : ∀ op ∈ bb.enc, op.exactOk = true := by simpa [List.all_eq_true] using hex
+        rw [← hS'] at hsp
+        have spA := spatStages_scale bb hex' l0 hsp a ha fresh
+        have spB := spatStages_scale bb hex' l0 hsp b hb fresh
+        rw [hS'] at spA spB
+        -- per-head data
+        let idx : Head → Nat := fun hd => (labels bb.dec).idxOf hd.os
+        let g : Head → Nat := fun hd => chans.getD (idx hd) 0
+        have hhead : ∀ hd ∈ c.heads, 0 < hd.os ∧ findIdx (labels bb.dec) hd.os = .ok (idx hd) ∧
+            headInFor c.rate bb.xIn bb.dec.length (labels bb.dec) c.minOs hd.os = .ok (g hd) ∧
+            l0.getD (idx hd) 0 * hd.os = c.realMaxStride := by
+          intro hd hhd
+          have := hw hd hhd
+          unfold certOs at this
+          simp only [Bool.and_eq_true, decide_eq_true_eq] at this
+          obtain ⟨hpos, this⟩ := this
+          cases hf : findIdx (labels bb.dec) hd.os with
+          | err e => simp [hf] at this
+          | ok i =>
+            have hi : i = idx hd := by
+              unfold findIdx at hf; split at hf
+              · injection hf with hf; exact hf.symm
+              · cases hf
+            subst hi
+            simp only [hf, Bool.and_eq_true, beq_iff_eq] at this
+            exact ⟨hpos, rfl, this.1, this.2⟩
+        have hinit : initHeads c bb c.heads = .ok (c.heads.map g) :=
+          initHeads_map c bb g c.heads (fun hd hhd => (hhead hd hhd).2.2.1)
+        have hcon : construct c = .ok { built := bb, headIn := c.heads.map g } := by
+          simp [construct, hbd, hinit]
+        let o : Head → Nat × Nat × Nat := fun hd =>
+          (hd.ch, (l0.map (a * ·)).getD (idx hd) 0, (l0.map (b * ·)).getD (idx hd) 0)
+        have hout : headOuts (labels bb.dec) chans (l0.map (a * ·)) (l0.map (b * ·)) c.heads (c.heads.map g)
+            = .ok (c.heads.map o) :=
+          headOuts_map _ _ _ _ g o c.heads (fun hd hhd => by
+            unfold headOutFor
+            rw [(hhead hd hhd).2.1]
+            simp [g, o])
+        refine ⟨{ stages := List.zip (labels bb.dec)
+                    (List.zip chans (List.zip (l0.map (a * ·)) (l0.map (b * ·)))),
+                  outs := c.heads.map o }, ?_, ?_⟩
+        · unfold run
+          rw [hcon]
+          simp only [Res.bind_ok, forward, hc, spA, spB, hout]
+        · simp only [contract]
+          apply List.map_congr_left
+          intro hd hhd
+          obtain ⟨hpos, _, _, hsz⟩ := hhead hd hhd
+          have e : ∀ m, m * c.realMaxStride / hd.os = m * l0.getD (idx hd) 0 := by
+            intro m
+            rw [← hsz, ← Nat.mul_assoc, Nat.mul_div_cancel _ hpos]
+          simp only [o]
+          rw [getD_map_mul, getD_map_mul, e a, e b]
 
-def gridWrapper (fam : Family) (variant : Nat) : List Cfg :=
-  [2, 4].flatMap fun sps => rates3.flatMap fun rate => strides6.flatMap fun bos =>
-  headGrid.flatMap fun hs => [1, 2, 3].flatMap fun cpb => bools.map fun upi =>
-    { fam := fam, variant := variant, filters := 0, rate := rate, maxStride := sps * 8, bos := bos, stem := sps,
-      cpb := cpb, middle := true, upInterp := upi, inCh := 1, heads := hs }
+/-- what a certificate says about sizes: on every multiple of the max stride the decoder stage
+    sizes are the same in both pooling states -/
+theorem wellFormed_spat (c : Cfg) (hw : wellFormed c = true) :
+    ∃ (b : Built) (l0 : List Nat), build c = .ok b ∧ ∀ m, 0 < m → ∀ fresh,
+      spatStages b fresh (m * c.realMaxStride) = .ok (l0.map (m * ·)) := by
+  unfold wellFormed at hw
+  cases hbd : build c with
+  | err e => simp [hbd] at hw
+  | ok bb =>
+    simp only [hbd, Bool.and_eq_true] at hw
+    obtain ⟨⟨⟨hex, hS⟩, _⟩, hw⟩ := hw
+    cases hc : chanStages c bb with
+    | err e => simp [hc] at hw
+    | ok chans =>
+      cases hsp : spatStages bb true c.realMaxStride with
+      | err e => simp [hc, hsp] at hw
+      | ok l0 =>
+        have hS' : encStride bb.enc = c.realMaxStride := by simpa using hS
+        have hex' : ∀ op ∈ bb.enc, op.exactOk = true := by simpa [List.all_eq_true] using hex
+        rw [← hS'] at hsp
+        refine ⟨bb, l0, rfl, fun m hm fresh => ?_⟩
+        have := spatStages_scale bb hex' l0 hsp m hm fresh
+        rwa [hS'] at this
 
-def gridOk (g : List Cfg) : Bool := g.all fun c => !(docValid c && supported c) || wellFormed c
+/-- the forward pass does not depend on the pooling state on multiples of the max stride -/
+theorem forward_fresh_irrelevant (c : Cfg) (hw : wellFormed c = true) (k : Constructed)
+    (hk : construct c = .ok k) (a b : Nat) (ha : 0 < a) (hb : 0 < b) (f1 f2 : Bool) :
+    forward c k f1 (a * c.realMaxStride) (b * c.realMaxStride)
+      = forward c k f2 (a * c.realMaxStride) (b * c.realMaxStride) := by
+  obtain ⟨bb, l0, hbd, hsp⟩ := wellFormed_spat c hw
+  have hkb : k.built = bb := by
+    unfold construct at hk
+    rw [hbd] at hk
+    simp only [Res.bind_ok] at hk
+    obtain ⟨hi, _, hk⟩ := Res.bind_eq_ok.mp hk
+    injection hk with hk; subst hk; rfl
+  unfold forward
+  rw [hkb, hsp a ha f1, hsp a ha f2, hsp b hb f1, hsp b hb f2]
+
+theorem callSeq_last (c : Cfg) (k : Constructed) (calls : List (Nat × Nat)) (last : Nat × Nat) (fresh : Bool) :
+    callSeq c k (calls ++ [last]) fresh
+      = some (forward c k (if calls = [] then fresh else false) last.1 last.2) := by
+  induction calls generalizing fresh with
+  | nil => simp [callSeq]
+  | cons p ps ih =>
+    cases ps with
+    | nil => simp [callSeq]
+    | cons q qs =>
+      have := ih false
+      simp only [List.cons_append] at this ⊢
+      simp only [callSeq]
+      rw [this]; simp
 
 end SleapVerif.Arch
